@@ -17,6 +17,9 @@ By `decide` on the tables regenerated from the source at every run:
 import CBV.Lemmas.C19
 import CBV.Lemmas.C19Geo
 import CBV.Lemmas.C19Rim
+import CBV.Lemmas.C19Rev
+import CBV.Model.C19Merge
+import Mathlib.Data.List.Basic
 import Mathlib.Analysis.Real.Sqrt
 import Mathlib.Tactic.NormNum
 import CBV.Gen.TC19
@@ -746,6 +749,99 @@ example : (sketchFromSource "FourCoreDisk").map (·.shell) = some [4, 5, 6, 7, 8
       = some ([9, 10, 11, 12, 13, 14, 15, 16], [4, 5, 6, 7, 8, 9, 10, 11]) := by decide +kernel
 
 end rim
+
+
+/-! ### round 6e — where the tiers of a `RevolvedStack` are -/
+
+section revolved
+open CBV.C11 (P3 rotAbout)
+
+/-- `RevolvedStack(base, angle, axis, origin, n)` for ANY sketch (faces given by their points), any number of tiers, any field:
+    with `(cs, sn)` the cosine and sine of one step `angle / n` and `u` the unit axis, the operation `grid[k][i][j]` has as bottom
+    face the face `base.grid[i][j]` turned about the axis by **k steps** — one Rodrigues rotation with the (cos, sin) pair
+    `stepAngle cs sn k` obtained from the step by the addition formulas — and as top face the same turned by k + 1 steps; every
+    such pair is again on the unit circle, and every point keeps its height along the axis and its distance from the origin of
+    the rotation: tier k lies on the circles of the base points, k steps round -/
+theorem T_C19_revolved_geometry {K : Type} [Field K] (cs sn : K) (u o : P3 K) (hu : P3.nsq u = 1)
+    (hcs : cs * cs + sn * sn = 1) (n : Nat) (g : List (List (List (P3 K)))) :
+    ∃ S, revolvedStack cs sn u o n g = some S ∧ S.length = n ∧
+      (∀ k i j : Nat, k < n → ((S[k]?).bind (·[i]?)).bind (·[j]?) =
+        ((g[i]?).bind (·[j]?)).map (fun f =>
+          (f.map (rotAbout (stepAngle cs sn k).1 (stepAngle cs sn k).2 u o),
+           f.map (rotAbout (stepAngle cs sn (k + 1)).1 (stepAngle cs sn (k + 1)).2 u o)))) ∧
+      (∀ k, (stepAngle cs sn k).1 * (stepAngle cs sn k).1 + (stepAngle cs sn k).2 * (stepAngle cs sn k).2 = 1) ∧
+      (∀ k p, P3.dot u (P3.sub (rotAbout (stepAngle cs sn k).1 (stepAngle cs sn k).2 u o p) o) = P3.dot u (P3.sub p o) ∧
+        P3.nsq (P3.sub (rotAbout (stepAngle cs sn k).1 (stepAngle cs sn k).2 u o p) o) = P3.nsq (P3.sub p o)) := by
+  obtain ⟨S, hS, hlen, hcell⟩ := T_C19_tstack (rotateFace cs sn u o) n g
+  refine ⟨S, hS, hlen, ?_, stepAngle_unit cs sn hcs, ?_⟩
+  · intro k i j hk
+    rw [hcell k i j hk]
+    cases (g[i]?).bind (·[j]?) with
+    | none => rfl
+    | some f => simp only [Option.map_some, iterate_rotateFace cs sn u o hu]
+  · intro k p
+    exact ⟨rotAbout_height _ _ u o p hu, rotAbout_dist _ _ u o p hu (stepAngle_unit cs sn hcs k)⟩
+
+/-- non-vacuity (ℚ, the 3-4-5 angle about the y axis through the origin, a sketch of one face with one point (1, 7, 0), two tiers):
+    the second tier goes from the point turned by two steps, (−7/25, 7, −24/25), to the point turned by three steps -/
+example : (3 / 5 : Rat) * (3 / 5) + (4 / 5) * (4 / 5) = 1 ∧ P3.nsq (⟨0, 1, 0⟩ : P3 Rat) = 1 ∧
+    (((revolvedStack (3 / 5 : Rat) (4 / 5) ⟨0, 1, 0⟩ ⟨0, 0, 0⟩ 3 [[[⟨1, 7, 0⟩]]]).bind (·[2]?)).bind (·[0]?)).bind (·[0]?)
+      = some ([⟨-7 / 25, 7, -24 / 25⟩], [⟨-117 / 125, 7, -44 / 125⟩]) := by decide +kernel
+
+end revolved
+
+
+/-! ### round 6e — `MappedSketch.merge` -/
+
+/-- `MappedSketch.merge` for ALL sketches (positions of any decidable type, any quads): the merged sketch has the faces of the first
+    sketch followed by those of the second (so face `len(first) + f` is face `f` of the second: what `faceCount` and `T_C19_mod3_grid`
+    rely on); every index of the first sketch still addresses its point; every re-indexed index of the second sketch addresses the
+    very point it addressed before; a point of the second sketch that the first one has too gets the first sketch's index (the two
+    sketches are stitched), and two indices of the second sketch at the same point get the same new index -/
+theorem T_C19_merge {α : Type} [DecidableEq α] (s1 s2 : Mapped α) (d : α) :
+    (mergeMapped s1 s2 d).quads.length = s1.quads.length + s2.quads.length ∧
+    (mergeMapped s1 s2 d).quads.take s1.quads.length = s1.quads ∧
+    (∀ i, i < s1.positions.length → (mergeMapped s1 s2 d).point d i = s1.point d i) ∧
+    (∀ i, i < s2.positions.length →
+      (mergeMapped s1 s2 d).point d (reindex s1.positions s2.positions d i) = s2.point d i ∧
+      (s2.point d i ∈ s1.positions →
+        reindex s1.positions s2.positions d i = s1.positions.idxOf (s2.point d i) ∧
+        reindex s1.positions s2.positions d i < s1.positions.length) ∧
+      ∀ i', s2.point d i' = s2.point d i → reindex s1.positions s2.positions d i' = reindex s1.positions s2.positions d i) := by
+  refine ⟨by simp [mergeMapped], by simp [mergeMapped], ?_, ?_⟩
+  · intro i hi
+    simp [Mapped.point, mergeMapped, mergePositions, List.getD_eq_getElem?_getD, List.getElem?_append_left hi]
+  · intro i hi
+    have hmem2 : s2.positions.getD i d ∈ s2.positions := by
+      rw [List.getD_eq_getElem?_getD, List.getElem?_eq_getElem hi]
+      exact List.getElem_mem hi
+    have hmem : s2.positions.getD i d ∈ mergePositions s1.positions s2.positions := by
+      unfold mergePositions
+      by_cases h1 : s2.positions.getD i d ∈ s1.positions
+      · exact List.mem_append_left _ h1
+      · exact List.mem_append_right _ (List.mem_filter.mpr ⟨hmem2, by simpa using h1⟩)
+    refine ⟨?_, ?_, ?_⟩
+    · have hlt : (mergePositions s1.positions s2.positions).idxOf (s2.positions.getD i d) <
+          (mergePositions s1.positions s2.positions).length := List.idxOf_lt_length_iff.mpr hmem
+      simp only [Mapped.point, mergeMapped, reindex]
+      rw [List.getD_eq_getElem?_getD, List.getElem?_eq_getElem hlt]
+      simp
+    · intro h1
+      have : reindex s1.positions s2.positions d i = s1.positions.idxOf (s2.point d i) := by
+        simp only [reindex, mergePositions, Mapped.point]
+        exact List.idxOf_append_of_mem h1
+      exact ⟨this, this ▸ List.idxOf_lt_length_iff.mpr h1⟩
+    · intro i' h
+      simp only [reindex]
+      simp only [Mapped.point] at h
+      rw [h]
+
+/-- non-vacuity: two quarters sharing an edge (points 11, 12): the second quarter's quad [0,1,2,3] over (11, 14, 15, 12) becomes
+    [1, 4, 5, 2] -/
+example : (mergeMapped (⟨[10, 11, 12, 13], [[0, 1, 2, 3]]⟩ : Mapped Nat) ⟨[11, 14, 15, 12], [[0, 1, 2, 3]]⟩ 0).positions =
+      [10, 11, 12, 13, 14, 15] ∧
+    (mergeMapped (⟨[10, 11, 12, 13], [[0, 1, 2, 3]]⟩ : Mapped Nat) ⟨[11, 14, 15, 12], [[0, 1, 2, 3]]⟩ 0).quads =
+      [[0, 1, 2, 3], [1, 4, 5, 2]] := by decide
 
 /-! ### round sketches and shapes: `decide` on the tables generated from the current source -/
 
